@@ -284,7 +284,7 @@ impl Signature {
     /// after it to the right
     pub fn unhashed_subpacket_insert(&mut self, index: usize, subpacket: Subpacket) -> Result<()> {
         if let InnerSignature::Known { ref mut config, .. } = self.inner {
-            if let PacketLength::Fixed(packetlen) = self.packet_header.packet_length_mut() {
+            if let PacketLength::Fixed(packetlen) = self.packet_header.packet_length() {
                 ensure!(
                     // `<=`, because index may point to the entry *after* the last element
                     index <= config.unhashed_subpackets.len(),
@@ -295,7 +295,7 @@ impl Signature {
                 let len = u32::try_from(subpacket.write_len())?;
 
                 config.unhashed_subpackets.insert(index, subpacket);
-                *packetlen += len;
+                self.packet_header.set_fixed_length(packetlen + len);
             } else {
                 bail!(
                     "Unexpected PacketLength encoding {:?}, can't modify the unhashed area",
@@ -320,9 +320,10 @@ impl Signature {
                 index
             );
 
-            if let PacketLength::Fixed(packetlen) = self.packet_header.packet_length_mut() {
+            if let PacketLength::Fixed(packetlen) = self.packet_header.packet_length() {
                 let sp = config.unhashed_subpackets.remove(index);
-                *packetlen -= u32::try_from(sp.write_len())?;
+                self.packet_header
+                    .set_fixed_length(packetlen - u32::try_from(sp.write_len())?);
                 Ok(sp)
             } else {
                 bail!(
